@@ -29,7 +29,8 @@ DIMS = {
     'T': [['dec'], ['iso', 800.0], ['iso', 2000.0], ['inc'], ['hot1'], ['outside']],
     'mag': ['tau1', 'zero', 'thin', 'mixed', 'sat'],
     'ngauss': [2, 1, 3, 4, 6],
-    'contribs': [['abs'], ['abs', 'cia'], ['abs', 'ray'], [], ['abs', 'cia', 'ray'], ['ray', 'cia']],
+    'contribs': [['abs'], ['abs', 'cia'], ['abs', 'ray'], [], ['abs', 'cia', 'ray'], ['ray', 'cia'], ['ray', 'abs'],
+                 ['cia', 'abs', 'ray']],
     'kind': ['emission', 'directimage'],
     'opmode': ['xsec', 'kdeg', 'kspread'],
     'starT': [5000.0, 3000.0],
@@ -223,18 +224,22 @@ HIST_ALPHABET += [['__window__', [1000.0, 2000.0]], ['__window__', [3000.0, 4000
 HIST_REDUCED = [['T', 700.0], ['T', 1900.0], ['star_temperature', 3500.0], ['H2O', 1e-2], ['atm_max_pressure', 1e5]]
 
 
-def hist_build(case):
+def hist_build(case, net=None):
     fx.reset_caches()
     install({'mag': 'tau1', 'opmode': case['opmode']})
     spec = {'kind': case['kind'], 'N': 3, 'T': ['iso', 1200.0], 'ngauss': 2,
             'gases': [['H2O', ['const', 1e-4]], ['CH4', ['const', 3e-5]]],
             'contribs': ['abs', ['cia', ['H2-He']], 'ray']}
+    if net is not None:
+        spec, rest = rthist.spec_with_net(spec, net)
+        return fx.build_model(spec), rest
     return fx.build_model(spec)
 
 
 def hist_fn(case):
     r = core.R(case)
-    rthist.run_history(r, case['hist'], lambda: hist_build(case), '%s/%s' % (case['kind'], case['opmode']), as_numpy=bool(case.get('np')), entry=case.get('entry', 'model'))
+    rthist.run_history(r, case['hist'], lambda: hist_build(case), '%s/%s' % (case['kind'], case['opmode']),
+                       build_with=lambda net: hist_build(case, net), as_numpy=bool(case.get('np')), entry=case.get('entry', 'model'))
     return r
 
 
